@@ -112,6 +112,7 @@ func verifC03Map(cs []verifC03Conf) map[string]*conf.Path {
 
 func verifC03Init() {
 	verifC03PRealRand = crand.Reader
+	verifC03JWTInit()
 	crand.Reader = verifC03Zero{} // auth.LogAndDelayError draws its 0–4 s pause from here: 0 ns
 	dir, err := os.MkdirTemp("", "verifc03")
 	if err != nil {
@@ -195,6 +196,13 @@ func (q verifC03Req) oracle() (valid bool, res string) {
 	if q.publish {
 		act = conf.AuthActionPublish
 	}
+	if verifC03JWTActive { // jwt method: the harness' own verdict on the token (jwt_test.go)
+		res = "deny"
+		if verifC03JWTRef(q.pass, string(act), q.name) {
+			res = "ok"
+		}
+		return
+	}
 	_, err := verifC03Mgr.Authenticate(&auth.Request{Action: act, Path: q.name, Protocol: verifC03Protos[q.proto%len(verifC03Protos)],
 		Credentials: &auth.Credentials{User: q.user, Pass: q.pass}, IP: net.ParseIP(q.ip)})
 	switch {
@@ -252,6 +260,10 @@ func verifC03Exec(op string) string {
 			verifC03PM.close()
 		}
 		verifC03Mgr = &auth.Manager{Method: conf.AuthMethodInternal, InternalUsers: verifC03ParseUsers(us), ReadTimeout: time.Second}
+		verifC03JWTSet(verifC03JWTParse(f[1:]))
+		if verifC03JWTActive {
+			verifC03Mgr = &auth.Manager{Method: conf.AuthMethodJWT, JWTJWKS: verifC03JWTSrv.URL, JWTClaimKey: verifC03JWTClaim, ReadTimeout: 5 * time.Second}
+		}
 		verifC03PM = &pathManager{
 			logLevel: conf.LogLevel(logger.Info), readTimeout: conf.Duration(10 * time.Second), writeTimeout: conf.Duration(10 * time.Second),
 			writeQueueSize: 512, udpMaxPayloadSize: 1472, rtpMaxPayloadSize: 1450,
@@ -392,7 +404,9 @@ func verifC03Users(r *verifutil.Rand) []string {
 	h := verifutil.HexS
 	type u struct{ user, pass, ips, perms string }
 	var us []u
-	switch r.Intn(6) {
+	switch r.Intn(7) {
+	case 6: // everything depends on the client address
+		us = []u{{"any", "", "10.0.0.0/8", "publish;read"}, {"pub", "pp", "10.1.2.3", "publish"}, {"rd", "rp", "192.168.0.0/16+10.0.0.0/8", "read"}}
 	case 0: // default-like: anybody may publish and read
 		us = []u{{"any", "", "-", "publish;read"}}
 	case 1:
@@ -432,6 +446,16 @@ func verifC03Gen(r *verifutil.Rand, i int, thorough bool) []string {
 	for _, c := range cs {
 		toks = append(toks, c.tok())
 	}
+	// every 5th history: authMethod jwt (tokens in the Pass field, JWKS served in-process)
+	var kids []string
+	if i%5 == 3 {
+		kids = []string{"k1"}
+		if r.Bool() {
+			kids = append(kids, "k2")
+		}
+		toks = append(toks, verifC03JWTTok(kids))
+	}
+	verifC03JWTSet(kids)
 	reset := "reset " + strings.Join(append(toks, us...), " ")
 	ops := []string{reset}
 	// the generator needs the oracle: install the permission table now (Exec does the same at replay)
@@ -440,6 +464,9 @@ func verifC03Gen(r *verifutil.Rand, i int, thorough bool) []string {
 
 	names := []string{"cam", "cam", "dyn/x", "dyn/x", "dyn/y", "live/a", "dz", "nope", "all_others", "~^dyn/", "../x", "", "cam/"}
 	idents := [][2]string{{"", ""}, {"pub", "pp"}, {"rd", "rp"}, {"pub2", "p2"}, {"pub", "wrong"}, {"u0", "p0"}, {"u1", "p1"}, {"ghost", "x"}}
+	if kids != nil {
+		idents = verifC03JWTIdents(r, kids)
+	}
 	mk := func(publish, skip bool) verifC03Req {
 		id := idents[r.Intn(len(idents))]
 		return verifC03Req{name: names[r.Intn(len(names))], publish: publish, skip: skip, user: id[0], pass: id[1],
